@@ -73,6 +73,16 @@ W["jdk"] = ("F-C15-6",
                        profiles=[[b"j", [b"", b"11.0.7", [b"", b"", b"", b""], [b"", b""]], [], [dep(b"g", b"a", b"1")], []]])],
              [[b"11.0.7", b"11.0.8", 1]]])
 
+# F-C15-9: a negated plain JDK value
+W["jdkneg"] = ("F-C15-9",
+               "a profile activated by a NEGATED JDK value (<jdk>!1.8</jdk>: active unless the JDK version starts with 1.8, POM "
+               "reference, activation): Profile.activated hands the text to the version-constraint parser, which rejects it, and "
+               "the whole pipeline fails with that error (in an imported BOM: the import is silently skipped); Maven activates "
+               "the profile under JDK 11.0.8 and adds g:a",
+               [ENV, [pom(b"r", b"root", b"1", deps=[dep(b"g", b"b", b"1")],
+                          profiles=[[b"n", [b"", b"!1.8", [b"", b"", b"", b""], [b"", b""]], [], [dep(b"g", b"a", b"1")], []]])],
+                [[b"!1.8", b"11.0.8", 2]]])
+
 # agreeing examples (non-vacuity of the refinement on lineages without those constructions)
 EX = {}
 EX["inherit"] = [ENV, [
@@ -163,7 +173,10 @@ def main():
         f.write("\n".join(v))
     ctx = lib.Ctx("C15", "quick", 1)
     lines = []
+    only = sys.argv[1:]
     for name, (fid, what, case) in W.items():
+        if only and name not in only:
+            continue
         arg = sx(case)
         got = ctx.impl("pom", [arg])[0]
         spec = ctx.model("pomspec", [arg])[0]
